@@ -551,7 +551,36 @@ class W3World(World):
                 self.flag('C13', 'rewrite_only_key', {}, 're-keying partition %s changed more than the key: %s' %
                           (gid, state_diff(norm, exp, 'after', 'expected')))
             self.imp.delete_graph(graph_id=gid)
+        # the original is left untouched *as its API shows it*: what the aggregate reports as each element's
+        # delegations after a partition was re-keyed is what its stored properties say, and partitioning it once
+        # more yields correct partitions again
+        self.check_arm_delegations(am)
+        again = self.partition(am)
+        for gid in (again or {}).values():
+            self.imp.delete_graph(graph_id=gid)
         return 'ok'
+
+    def check_arm_delegations(self, am):
+        from fim.slivers.delegations import DelegationType
+        arm = self.arm(am)
+        st = self.state(self.ams[am]['arm_id'])
+        for n, lst in sorted(st['nodes'].items()):
+            p = lst[0]
+            for k, dt in (('LabelDelegations', DelegationType.LABEL), ('CapacityDelegations', DelegationType.CAPACITY)):
+                want = jprop(p, k)
+                try:
+                    got = arm.get_delegations(node_id=n, delegation_type=dt)
+                except Exception as e:
+                    self.flag('C13', 'arm_untouched', {'symptom': 'get_delegations_raises', 'exc': type(e).__name__},
+                              'get_delegations(%s, %s) on the aggregate of %s raised %s: %s' %
+                              (n, k, am, type(e).__name__, str(e)[:200]))
+                    continue
+                gk = sorted(got.delegations.keys()) if got is not None else []
+                wk = sorted(want.keys()) if isinstance(want, dict) else []
+                if gk != wk:
+                    self.flag('C13', 'arm_untouched', {'symptom': 'reported_delegation_ids'},
+                              'after re-keying a partition, the aggregate of %s reports %s of %s under ids %s; its stored '
+                              'property has ids %s' % (am, k, n, gk, wk))
 
     # ---- C14
     def do_send(self, s):
